@@ -87,6 +87,24 @@ Theorem C06_listing_exact :
          /\ (forall kd, abs r' kd = []) /\ Inv hash keq k r').
 Proof. exact @listing_exact_full. Qed.
 
+(* a caller-supplied closure that panics inside get_or_create_*: the registry changes exactly as for the
+   same call with a returning closure (read-hit: nothing; create path: the entry is inserted and stays),
+   only the outcome differs.  A poisoned shard lock is not state (every accessor recovers the guard), so all
+   later operations are those of the registry the returning call would have left; the invariants, the
+   refinement and the listing theorems above quantify over programs containing such calls. *)
+Theorem C06_panicking_closure_as_returning_call :
+  forall (key : Type) (hash : key -> N) (keq : key -> key -> bool) (k : N)
+         (r : @reg key) (l l' : @local key) kd key0 rest rest',
+    pcl l = pcl l' -> todo l = OGetOrCreateP kd key0 :: rest -> todo l' = OGetOrCreate kd key0 :: rest' ->
+    match step hash keq k r l, step hash keq k r l' with
+    | Some (r1, l1), Some (r2, l2) =>
+        r1 = r2 /\ pcl l1 = pcl l2 /\
+        ((results l1 = results l /\ results l2 = results l') \/
+         (exists s, results l1 = RPanicked s :: results l /\ results l2 = RSid s :: results l'))
+    | _, _ => False
+    end.
+Proof. exact @panicking_closure_as_returning_call. Qed.
+
 (* the model's own run of every case (history or schedule, any k) passes the executable property:
    the single-map replay of the observed lock order *)
 Theorem C06_spec_ok_on_model : forall c, consistent (okeys (case_keys c)) = true -> spec_ok c (run_case c) = true.
